@@ -2,10 +2,14 @@
 package checks
 
 import (
+	"encoding/json"
 	"fmt"
 	"os"
+	"os/exec"
 	"runtime"
 	"sort"
+	"strings"
+	"sync"
 	"time"
 
 	"verif/engine/explore"
@@ -133,4 +137,82 @@ func sortedKeys[V any](m map[string]V) []string {
 	}
 	sort.Strings(ks)
 	return ks
+}
+
+// ---- sharded worker processes -------------------------------------------------------------------------
+
+type shardOut struct {
+	Coverage map[string]any `json:"coverage"`
+	Viols    []report.Viol  `json:"viols"`
+}
+
+// ShardFuncs maps a check id to its single-threaded shard body.
+var ShardFuncs = map[string]func(t Tier, shard, n int) *report.Run{}
+
+// ShardMain is `pcheck shard <ID> <tier> <i> <n>`: runs one shard and prints its result as one JSON line.
+func ShardMain(id, tier string, shard, n int) int {
+	f, ok := ShardFuncs[id]
+	if !ok {
+		return 2
+	}
+	t := Tier{Name: tier, Thorough: tier == "thorough"}
+	run := f(t, shard, n)
+	bz, err := json.Marshal(shardOut{Coverage: run.Coverage, Viols: run.Viols})
+	if err != nil {
+		fmt.Fprintln(os.Stderr, "shard: cannot marshal result:", err)
+		return 2
+	}
+	fmt.Printf("SHARD-RESULT %s\n", bz)
+	return 0
+}
+
+// shardedRun spawns one worker process per core, merges violations into run and returns the per-shard coverage maps.
+func shardedRun(run *report.Run, id string, t Tier) ([]map[string]any, bool) {
+	n := runtime.NumCPU()
+	if s := os.Getenv("VERIF_WORKERS"); s != "" {
+		fmt.Sscan(s, &n)
+	}
+	outs := make([]*shardOut, n)
+	errs := make([]error, n)
+	var wg sync.WaitGroup
+	for i := 0; i < n; i++ {
+		wg.Add(1)
+		go func(i int) {
+			defer wg.Done()
+			cmd := exec.Command(os.Args[0], "shard", id, t.Name, fmt.Sprint(i), fmt.Sprint(n))
+			cmd.Env = append(os.Environ(), "GOMAXPROCS=2")
+			cmd.Stderr = os.Stderr
+			bz, err := cmd.Output()
+			if err != nil {
+				errs[i] = fmt.Errorf("shard %d: %v", i, err)
+				return
+			}
+			for _, line := range strings.Split(string(bz), "\n") {
+				if strings.HasPrefix(line, "SHARD-RESULT ") {
+					var o shardOut
+					if err := json.Unmarshal([]byte(line[len("SHARD-RESULT "):]), &o); err != nil {
+						errs[i] = err
+						return
+					}
+					outs[i] = &o
+				}
+			}
+			if outs[i] == nil {
+				errs[i] = fmt.Errorf("shard %d printed no result", i)
+			}
+		}(i)
+	}
+	wg.Wait()
+	var cov []map[string]any
+	for i := 0; i < n; i++ {
+		if errs[i] != nil {
+			fmt.Fprintln(os.Stderr, "HARNESS ERROR:", errs[i])
+			return nil, false
+		}
+		cov = append(cov, outs[i].Coverage)
+		for _, v := range outs[i].Viols {
+			run.Add(v)
+		}
+	}
+	return cov, true
 }
